@@ -3,6 +3,8 @@
 package c14
 
 import (
+	"time"
+	"context"
 	"bytes"
 	"encoding/json"
 	"fmt"
@@ -48,6 +50,8 @@ type Case struct {
 	// Bytes: strings are handed to PutStringBytes as back-to-back sub-slices of ONE scratch buffer holding all the
 	// case's strings (the allocation-free use that API exists for); the buffer must come back unchanged
 	Bytes bool `json:"bytes,omitempty"`
+	// Ctx: 0 context.Background(), 1 cancellable (never cancelled), 2 far deadline
+	Ctx int `json:"ctx,omitempty"`
 }
 
 func (v Val) str() string {
@@ -88,47 +92,47 @@ func put(m *message.Message, v Val, code bool) error {
 	case "int":
 		x := int(v.I)
 		if code {
-			return m.CodeInt(kit.Bg, &x)
+			return m.CodeInt(cx, &x)
 		}
-		return m.PutInt(kit.Bg, x)
+		return m.PutInt(cx, x)
 	case "int64":
 		x := v.I
 		if code {
-			return m.CodeInt64(kit.Bg, &x)
+			return m.CodeInt64(cx, &x)
 		}
-		return m.PutInt64(kit.Bg, x)
+		return m.PutInt64(cx, x)
 	case "int32":
 		x := int32(v.I)
 		if code {
-			return m.CodeInt32(kit.Bg, &x)
+			return m.CodeInt32(cx, &x)
 		}
-		return m.PutInt32(kit.Bg, x)
+		return m.PutInt32(cx, x)
 	case "uint32":
-		return m.PutUint32(kit.Bg, uint32(v.I))
+		return m.PutUint32(cx, uint32(v.I))
 	case "double":
 		x := math.Float64frombits(v.F)
 		if code {
-			return m.CodeDouble(kit.Bg, &x)
+			return m.CodeDouble(cx, &x)
 		}
-		return m.PutDouble(kit.Bg, x)
+		return m.PutDouble(cx, x)
 	case "float":
 		x := float32(math.Float64frombits(v.F))
 		if code {
-			return m.CodeFloat(kit.Bg, &x)
+			return m.CodeFloat(cx, &x)
 		}
-		return m.PutFloat(kit.Bg, x)
+		return m.PutFloat(cx, x)
 	case "char":
 		x := byte(v.I)
 		if code {
-			return m.CodeChar(kit.Bg, &x)
+			return m.CodeChar(cx, &x)
 		}
-		return m.PutChar(kit.Bg, x)
+		return m.PutChar(cx, x)
 	case "string":
 		x := v.str()
 		if code {
-			return m.CodeString(kit.Bg, &x)
+			return m.CodeString(cx, &x)
 		}
-		return m.PutString(kit.Bg, x)
+		return m.PutString(cx, x)
 	}
 	return fmt.Errorf("bad type")
 }
@@ -147,9 +151,9 @@ func get(m *message.Message, v Val, code bool) string {
 		var x int
 		var err error
 		if code {
-			err = m.CodeInt(kit.Bg, &x)
+			err = m.CodeInt(cx, &x)
 		} else {
-			x, err = m.GetInt(kit.Bg)
+			x, err = m.GetInt(cx)
 		}
 		if err != nil || int64(x) != v.I {
 			return fmt.Sprintf("int: want %d got %d err %v", v.I, x, err)
@@ -158,9 +162,9 @@ func get(m *message.Message, v Val, code bool) string {
 		var x int64
 		var err error
 		if code {
-			err = m.CodeInt64(kit.Bg, &x)
+			err = m.CodeInt64(cx, &x)
 		} else {
-			x, err = m.GetInt64(kit.Bg)
+			x, err = m.GetInt64(cx)
 		}
 		if err != nil || x != v.I {
 			return fmt.Sprintf("int64: want %d got %d err %v", v.I, x, err)
@@ -169,15 +173,15 @@ func get(m *message.Message, v Val, code bool) string {
 		var x int32
 		var err error
 		if code {
-			err = m.CodeInt32(kit.Bg, &x)
+			err = m.CodeInt32(cx, &x)
 		} else {
-			x, err = m.GetInt32(kit.Bg)
+			x, err = m.GetInt32(cx)
 		}
 		if err != nil || x != int32(v.I) {
 			return fmt.Sprintf("int32: want %d got %d err %v", int32(v.I), x, err)
 		}
 	case "uint32":
-		x, err := m.GetUint32(kit.Bg)
+		x, err := m.GetUint32(cx)
 		if err != nil || x != uint32(v.I) {
 			return fmt.Sprintf("uint32: want %d got %d err %v", uint32(v.I), x, err)
 		}
@@ -185,9 +189,9 @@ func get(m *message.Message, v Val, code bool) string {
 		var x float64
 		var err error
 		if code {
-			err = m.CodeDouble(kit.Bg, &x)
+			err = m.CodeDouble(cx, &x)
 		} else {
-			x, err = m.GetDouble(kit.Bg)
+			x, err = m.GetDouble(cx)
 		}
 		w := math.Float64frombits(v.F)
 		if err != nil || !closeEnough(w, x, 1.0/(1<<30)) {
@@ -197,9 +201,9 @@ func get(m *message.Message, v Val, code bool) string {
 		var x float32
 		var err error
 		if code {
-			err = m.CodeFloat(kit.Bg, &x)
+			err = m.CodeFloat(cx, &x)
 		} else {
-			x, err = m.GetFloat(kit.Bg)
+			x, err = m.GetFloat(cx)
 		}
 		w := float32(math.Float64frombits(v.F))
 		if err != nil || !closeEnough(float64(w), float64(x), 1.0/(1<<22)) {
@@ -209,9 +213,9 @@ func get(m *message.Message, v Val, code bool) string {
 		var x byte
 		var err error
 		if code {
-			err = m.CodeChar(kit.Bg, &x)
+			err = m.CodeChar(cx, &x)
 		} else {
-			x, err = m.GetChar(kit.Bg)
+			x, err = m.GetChar(cx)
 		}
 		if err != nil || x != byte(v.I) {
 			return fmt.Sprintf("char: want %d got %d err %v", byte(v.I), x, err)
@@ -220,9 +224,9 @@ func get(m *message.Message, v Val, code bool) string {
 		var x string
 		var err error
 		if code {
-			err = m.CodeString(kit.Bg, &x)
+			err = m.CodeString(cx, &x)
 		} else {
-			x, err = m.GetString(kit.Bg)
+			x, err = m.GetString(cx)
 		}
 		w := v.str()
 		if err != nil || x != w {
@@ -238,8 +242,24 @@ type stats struct {
 	plainLen   int
 }
 
+// cx is the context every call of the current case gets (cases run one at a time)
+var cx = context.Background()
+
 func runCase(c Case) (string, stats) {
 	var st stats
+	// the context: background, cancellable but never cancelled, or with a far deadline (the stream reads and
+	// writes differently under a context that can end)
+	cx = context.Background()
+	switch c.Ctx {
+	case 1:
+		var cancel context.CancelFunc
+		cx, cancel = context.WithCancel(context.Background())
+		defer cancel()
+	case 2:
+		var cancel context.CancelFunc
+		cx, cancel = context.WithTimeout(context.Background(), time.Hour)
+		defer cancel()
+	}
 	key := kit.Pattern(32, 4242)
 	enc := c.AES && !c.KeyOff // frames are protected and strings carry their length prefix
 	keyed := func(s *stream.Stream) error {
@@ -280,9 +300,9 @@ func runCase(c Case) (string, stats) {
 			x := v.str()
 			if k := strings.IndexByte(x, 0); k >= 0 {
 				// (a NUL ends the string on the wire: the slice handed over stops there, as PutString would)
-				err = msg.PutStringBytes(kit.Bg, scratch[off:off+k])
+				err = msg.PutStringBytes(cx, scratch[off:off+k])
 			} else {
-				err = msg.PutStringBytes(kit.Bg, scratch[off:off+len(x)])
+				err = msg.PutStringBytes(cx, scratch[off:off+len(x)])
 			}
 			off += len(x)
 		} else {
@@ -294,7 +314,7 @@ func runCase(c Case) (string, stats) {
 		want = append(want, v.ref(enc)...)
 		bounds = append(bounds, len(want))
 	}
-	if err := msg.FinishMessage(kit.Bg); err != nil {
+	if err := msg.FinishMessage(cx); err != nil {
 		return "FinishMessage: " + err.Error(), st
 	}
 	if !bytes.Equal(scratch, scratchBefore) {
@@ -367,7 +387,7 @@ func runCase(c Case) (string, stats) {
 				return fmt.Sprintf("%s: value %d: %s", desc, i, d)
 			}
 		}
-		if _, err := m.GetChar(kit.Bg); err != io.EOF {
+		if _, err := m.GetChar(cx); err != io.EOF {
 			return fmt.Sprintf("%s: message does not end after the last value (err=%v)", desc, err)
 		}
 		if cb.Pending() != 0 {
@@ -537,6 +557,7 @@ func genCase(t *rapid.T) Case {
 	c := Case{AES: rapid.Bool().Draw(t, "aes"), Code: rapid.IntRange(0, 3).Draw(t, "code") == 0}
 	c.KeyOff = c.AES && rapid.IntRange(0, 3).Draw(t, "keyoff") == 0
 	c.Bytes = !c.Code && rapid.IntRange(0, 2).Draw(t, "bytes") == 0
+	c.Ctx = rapid.IntRange(0, 2).Draw(t, "ctx")
 	n := rapid.IntRange(1, 12).Draw(t, "n")
 	huge := rapid.IntRange(0, 39).Draw(t, "hugecase") == 0
 	for i := 0; i < n; i++ {
